@@ -8,6 +8,7 @@
 #include <ctime>
 #include <fstream>
 #include <set>
+#include <unordered_set>
 #include <sstream>
 #include <sys/mman.h>
 #include <sys/personality.h>
@@ -601,6 +602,21 @@ int sim_main(int argc, char **argv) {
         for (auto *e : engines()) printf("%s %s\n", e->name(), e->property());
         return 0;
     }
+    if (mode == "merge-nt") { // count distinct 64-bit digests over the given files
+        std::vector<uint64_t> all;
+        for (int i = 3; i < argc; i++) {
+            FILE *f = fopen(argv[i], "rb");
+            if (!f) continue;
+            uint64_t buf[4096];
+            size_t n;
+            while ((n = fread(buf, 8, 4096, f)) > 0) all.insert(all.end(), buf, buf + n);
+            fclose(f);
+        }
+        std::sort(all.begin(), all.end());
+        all.erase(std::unique(all.begin(), all.end()), all.end());
+        printf("DISTINCT %zu\n", all.size());
+        return 0;
+    }
     Engine *e = find_engine(ename);
     if (!e) {
         fprintf(stderr, "unknown engine %s\n", ename.c_str());
@@ -690,10 +706,13 @@ int sim_main(int argc, char **argv) {
         long deadline = atol(arg_value(argc, argv, "--deadline", "0"));
         int samples = atoi(arg_value(argc, argv, "--samples", "0"));
         bool hashes = arg_flag(argc, argv, "--hashes");
+        uint64_t hash_limit = strtoull(arg_value(argc, argv, "--hash-limit", "18446744073709551615"), nullptr, 0);
         std::string cand = arg_value(argc, argv, "--cand-dir", "out/cand");
         const char *ntpath = arg_value(argc, argv, "--nt-out", nullptr);
         FILE *ntf = ntpath ? fopen(ntpath, "ab") : nullptr;
-        std::set<uint64_t> nt_seen;
+        std::unordered_set<uint64_t> nt_seen;
+        const size_t NT_CAP = 2000000;
+        bool nt_capped = false;
         uint64_t runs = 0, cases = 0, viol = 0, skips = 0;
         for (uint64_t idx = from; idx < limit; idx += stride) {
             if (deadline && (runs & 15) == 0 && time(nullptr) >= deadline) break;
@@ -719,9 +738,15 @@ int sim_main(int argc, char **argv) {
             runs++;
             cases += o.cases;
             if (o.cls == "skip") skips++;
-            for (uint64_t h : o.nontrivial)
+            for (uint64_t h : o.nontrivial) {
+                // exact up to NT_CAP digests per worker, a lower bound beyond that
+                if (nt_seen.size() >= NT_CAP) {
+                    nt_capped = true;
+                    break;
+                }
                 if (nt_seen.insert(h).second && ntf) fwrite(&h, 8, 1, ntf);
-            if (hashes)
+            }
+            if (hashes && idx < hash_limit)
                 printf("E %llu %016llx %s\n", (unsigned long long)idx, (unsigned long long)o.hash,
                        o.cls.c_str());
             if (o.violation()) {
@@ -749,6 +774,7 @@ int sim_main(int argc, char **argv) {
                 if (ntf) fflush(ntf);
             }
         }
+        if (nt_capped) stat("distinct_digest_cap_reached_workers");
         printf("STATS %s\n", stats_json(*e, runs, cases, viol, skips).c_str());
         printf("DONE %llu\n", (unsigned long long)runs);
         fflush(stdout);
